@@ -97,12 +97,22 @@ func limitChunkMatches(file *zoekt.FileMatch, limit int) int {
 			// a trailing newline.
 			n := cm.Ranges[len(cm.Ranges)-1].End.LineNumber - cm.Ranges[limit-1].End.LineNumber
 			if n > 0 {
-				for b := len(cm.Content) - 1; b >= 0; b-- {
+				// Content ends with a newline unless its last line is the
+				// last line of a file without trailing newline. That
+				// newline terminates the last line, it does not separate
+				// two lines, so it must not be counted (and is kept).
+				end := len(cm.Content)
+				trailing := 0
+				if end > 0 && cm.Content[end-1] == '\n' {
+					end--
+					trailing = 1
+				}
+				for b := end - 1; b >= 0; b-- {
 					if cm.Content[b] == '\n' {
 						n -= 1
 					}
 					if n == 0 {
-						cm.Content = cm.Content[:b]
+						cm.Content = cm.Content[:b+trailing]
 						break
 					}
 				}
